@@ -64,6 +64,14 @@ claim('C19', 'pairing (swap-out / write-back on every exit) and dominance (verif
       'rustc front end + MIR (security feature set); mirfacts; ring / x509 verification.',
       'DESIGN.md section 4 C19')
 
+claim('C11', 'who-may-write (field / map mutation sites), pairing and guard (edge-cut) rules on MIR',
+      'Decides the structural necessary conditions: total counters only grow (total += c under c > 0); every matched status takes current from len() of the match map after the '
+      'mutation and total from the monotone counter, with agreeing changes; an unmatch status is sent exactly when the removed key was in the map; the maps are mutated only by the '
+      'paired add/remove/detach-reattach functions (net-zero checked); incompatible QoS yields the incompatible-QoS status and no match; participant loss removes every endpoint of '
+      'that participant and the event loop forwards losses to every local endpoint. Set equality with "currently announced" over discovery histories is not decided.',
+      'rustc front end + MIR; mirfacts; BTreeMap semantics.',
+      'DESIGN.md section 4 C11')
+
 _pending = 'check not built yet in this revision (static rules designed in DESIGN.md section 4; implementation in progress)'
 for _p in ['C01', 'C02', 'C03', 'C04', 'C05', 'C06', 'C08', 'C09', 'C10', 'C11', 'C12', 'C14', 'C15', 'C16', 'C17', 'C18', 'C19', 'C20']:
     if _p not in CHECKS:
